@@ -1368,3 +1368,25 @@ package yqlib
 //@ func flatten
 //@   trusted
 //@   modifies node.Content
+
+// ---------------------------------------------------------------------------------------------
+// encoder_xml.go: what cannot be encoded is refused, not dropped (C19)
+
+//@ pred xmlAttr(e, name) = strings.HasPrefix(name, e.prefs.AttributePrefix) && name != e.prefs.ContentName && name != e.prefs.DirectiveName && !strings.HasPrefix(name, e.prefs.ProcInstPrefix)
+//@ pred xmlBadAttr(e, node, j) = j % 2 == 0 && xmlAttr(e, node.Content[j].Value) && node.Content[j+1].Kind != ScalarNode
+
+//@ func (*xmlEncoder).isAttribute
+//@   props C19 C11
+//@   requires e != nil
+//@   ensures result == xmlAttr(e, name)
+
+//@ func (*xmlEncoder).encodeMap
+//@   props C19
+//@   nosafety
+//@   noframe
+//@   requires e != nil && node != nil
+//@   assume @children-non-nil forall(i, 0, len(node.Content), node.Content[i] != nil) && len(node.Content) % 2 == 0
+//@   ensures @a-non-scalar-attribute-is-refused-not-dropped {C19} implies(old(exists(j, 0, len(node.Content), xmlBadAttr(e, node, j))), result != nil)
+//@   loop 1:
+//@     invariant 0 <= i && i % 2 == 0 && i <= len(node.Content)
+//@     invariant @none-so-far forall(j, 0, i, !xmlBadAttr(e, node, j))
